@@ -516,6 +516,10 @@ def _explained_by_ctrl_snap(steps, qs, ops, order, got, tol):
         if s["cvals"]:
             try:
                 m = cirq.Circuit(cirq.decompose_once(op)).unitary(qubit_order=list(op.qubits))
+                if L.phase_diff(m, s["matrix"]) <= 1e-7:
+                    # the snapping can sit one level further down (a controlled two-qubit gate first decomposes into
+                    # exactly controlled pieces, each of which then goes through _decompose_abc)
+                    m = cirq.Circuit(cirq.decompose(op)).unitary(qubit_order=list(op.qubits))
             except Exception:
                 return False
             dm = L.phase_diff(m, s["matrix"])
